@@ -403,3 +403,6 @@ def replay(cs, env):
     for c, cr in env.execute([cs]):
         judge(res, c, cr)
     return res
+
+
+RULE = RULE + ' Systematic families: type ladders, recursion refinement (initial value x step x condition), deduction chains of 2-8 rounds and recursions without a principal type, value-class matrix, templated / property calls incl. one template instantiated twice in one expression, filters over untyped arguments with ill-typed parameters, function definitions with binders / recursions in argument domains and arguments re-using a bound name (declared argument list).'
